@@ -11,7 +11,9 @@
      l4len    bytes the IPv4 payload b[20:total] holds, when that slice is well defined
      doff     TCP data offset nibble;  opts: the TCP option bytes (doff*4-20 of them)
      ulen     UDP length field
-     tome     destination address is one of ours;   peer: "arp" | "route" | "none"
+     tome     destination address is one of ours;   peer: how the sender can be answered - "arp" (its address is in the
+              ARP cache), "route" (via a gateway that is), "gwless" (via a route whose gateway has no
+              ARP entry), "onlink" (a route without gateway, sender not in the cache), "none" (no route)
      flags    TCP control bits as a set
    Classify says what a correct stack does with the frame; whatever it is, the listener
    stays alive and later frames are processed (C02).  The connection table has Cap slots;
